@@ -327,6 +327,9 @@ func runC08(ctx *core.Ctx, idx int) *core.Result {
 	if idx%10 == 4 {
 		c08DeepNesting(ctx, res, r)
 	}
+	if idx%10 == 6 {
+		c08ManyImports(ctx, res, r)
+	}
 	if idx%100 == 2 {
 		c08Directed(ctx, res)
 	}
@@ -444,6 +447,63 @@ func c08DeepNesting(ctx *core.Ctx, res *core.Result, r *rand.Rand) {
 	}
 	if b, _ := os.ReadFile(filepath.Join(dir, "t.go")); cr.Exit != 0 || !strings.Contains(string(b), "bar(1, 2)") {
 		res.Violate("C08/not-rewritten/deep-nesting", fmt.Sprintf("exit %d: %s", cr.Exit, core.Trunc(string(cr.Stderr), 300)), map[string]string{"p.patch": pt, "in.go": sb.String()})
+	}
+}
+
+// c08ManyImports: a patch that lists one path many times under identifier metavariables against a file that imports the
+// path under several names (still a small input: < 1 KiB). Every listed import may stand for every import of the file;
+// finding out which must not cost time or memory exponential in the number of listed imports, whether the code of
+// the patch then matches or not.
+func c08ManyImports(ctx *core.Ctx, res *core.Result, r *rand.Rand) {
+	k := 6 + r.Intn(12) // imports listed in the patch
+	m := 2 + r.Intn(4)  // imports of the path in the file
+	var names []string
+	var pt strings.Builder
+	pt.WriteString("@@\nvar x expression\nvar ")
+	for i := 0; i < k; i++ {
+		names = append(names, fmt.Sprintf("n%d", i))
+	}
+	pt.WriteString(strings.Join(names, ", ") + " identifier\n@@\n")
+	for _, n := range names {
+		fmt.Fprintf(&pt, " import %s \"example.com/many\"\n", n)
+	}
+	used := names[r.Intn(len(names))]
+	shape := r.Intn(3)
+	switch shape {
+	case 0: // one of the names is used; the file has such a call
+		fmt.Fprintf(&pt, "\n-%s.Old(x)\n+%s.New(x)\n", used, used)
+	case 1: // nothing in the file matches the code
+		fmt.Fprintf(&pt, "\n-%s.Absent(x)\n+%s.New(x)\n", used, used)
+	default: // the code does not mention the imports
+		pt.WriteString("\n-legacy(x)\n+modern(x)\n")
+	}
+	var src strings.Builder
+	src.WriteString("package p\n\nimport (\n")
+	for j := 0; j < m; j++ {
+		fmt.Fprintf(&src, "\tm%d \"example.com/many\"\n", j)
+	}
+	src.WriteString(")\n\nfunc f() {\n")
+	for j := 0; j < m; j++ {
+		fmt.Fprintf(&src, "\tm%d.Keep()\n", j)
+	}
+	fmt.Fprintf(&src, "\tm%d.Old(1)\n\tlegacy(2)\n}\n", m-1)
+	dir, _ := os.MkdirTemp(ctx.Tmp, "c08imp")
+	defer os.RemoveAll(dir)
+	os.WriteFile(filepath.Join(dir, "m.patch"), []byte(pt.String()), 0o644)
+	os.WriteFile(filepath.Join(dir, "t.go"), []byte(src.String()), 0o644)
+	cr := ctx.RunCLI(core.CLIOpts{Dir: dir, Args: []string{"-p", "m.patch", "t.go"}})
+	res.Evals++
+	res.Ob("many-imports-runs", 1)
+	res.Sig("many-imports", k, m, shape)
+	rep := map[string]string{"p.patch": pt.String(), "in.go": src.String()}
+	if cc := cr.CrashClass(); cc != "" {
+		res.Violate("C08/"+cc+"/many-imports", fmt.Sprintf("%d imports of one path in the patch, %d in the file (shape %d): %s", k, m, shape, core.Trunc(string(cr.Stderr), 600)), rep)
+		return
+	}
+	b, _ := os.ReadFile(filepath.Join(dir, "t.go"))
+	want := map[int]string{0: fmt.Sprintf("m%d.New(1)", m-1), 1: "legacy(2)", 2: "modern(2)"}[shape]
+	if cr.Exit != 0 || !strings.Contains(string(b), want) {
+		res.Violate("C08/not-rewritten/many-imports", fmt.Sprintf("exit %d, %q not in the file: %s", cr.Exit, want, core.Trunc(string(cr.Stderr), 300)), rep)
 	}
 }
 
